@@ -1751,6 +1751,8 @@ class Exec:
         raise Unsupported(f"comparison {type(op).__name__}")
 
     def equal(self, a, b, st, node):
+        if isinstance(a, NanV) or isinstance(b, NanV):
+            return z3.BoolVal(False)  # IEEE: NaN compares unequal to everything, itself included
         if isinstance(a, SliceV) and isinstance(b, SliceV):
             return S.slice_eq(a, b)
         if isinstance(a, SliceV) != isinstance(b, SliceV):
